@@ -87,17 +87,30 @@ func vxH_C20_converse() {
 	ref := vxNewNode()
 	names := []string{"a"}
 	none := map[string]bool{}
+	var grand [][]vxEnt // what was written to the grandchild a/g
 	nb := 1 + vxChoose(2)
 	for n := 0; n < nb; n++ {
 		b, berr := coll.NewBatch(4, 64)
 		vxAssert("newbatch-ok", berr == nil)
-		shape := vxChoose(3)
-		if shape != 1 {
+		shape := vxChoose(4) // 0 parent, 1 child, 2 both, 3 grandchild only
+		if shape == 3 {
+			cb, cerr := b.NewChildCollectionBatch("a", BatchOptions{TotalOps: 2, TotalKeyValBytes: 16})
+			vxAssert("childbatch-ok", cerr == nil)
+			gb, gerr := cb.NewChildCollectionBatch("g", BatchOptions{TotalOps: 2, TotalKeyValBytes: 16})
+			vxAssert("grandchildbatch-ok", gerr == nil)
+			ents := vxFixedSet()
+			vxFillBatch(gb, ents)
+			if ref.kids["a"] == nil {
+				ref.kids["a"] = vxNewNode()
+			}
+			grand = append(grand, ents)
+		}
+		if shape == 0 || shape == 2 {
 			ents := vxFixedSet()
 			vxFillBatch(b, ents)
 			ref.layers = append(ref.layers, ents)
 		}
-		if shape != 0 {
+		if shape == 1 || shape == 2 {
 			cb, cerr := b.NewChildCollectionBatch("a", BatchOptions{TotalOps: 2, TotalKeyValBytes: 16})
 			vxAssert("childbatch-ok", cerr == nil)
 			ents := vxFixedEnt()
@@ -127,6 +140,17 @@ func vxH_C20_converse() {
 		ss, _ := store.Snapshot()
 		vxCheckTree("store", ss, ref, K, vxKeyBytes(K), names, none)
 		vxCheckTree("store2", ss, ref, J, vxKeyBytes(J), names, none)
+		if len(grand) > 0 {
+			var got []byte
+			if as, _ := ss.ChildCollectionSnapshot("a"); as != nil {
+				if gs, _ := as.ChildCollectionSnapshot("g"); gs != nil {
+					got, _ = gs.Get(vxKeyBytes(K), ReadOptions{})
+					gs.Close()
+				}
+				as.Close()
+			}
+			vxAssert("store-grandchild-content", vxGotIs(got, vxRefGet(K, grand...)))
+		}
 		ss.Close()
 	}
 	coll.Close()
